@@ -830,57 +830,10 @@ func asciiWord(r *Rng, n int) string {
 func runWallets(o *Out, r *Rng, n int, hist Hist, caseJSON map[string][]map[string]interface{}) error {
 	var items []string
 	ctypes := []crypto.CryptoType{crypto.CryptoTypeSha256Xor, crypto.CryptoTypeScryptChacha20poly1305Insecure}
-	for i := 0; i < n; i++ {
-		ct := ctypes[i%2]
-		if i%7 == 3 {
-			ct = crypto.CryptoTypeSha256Xor
-		}
-		temp := r.Chance(8)
-		opts := []wallet.Option{wallet.OptionCryptoType(ct)}
-		if temp {
-			opts = append(opts, wallet.OptionTemp(true))
-		}
-		var cur wallet.Wallet
-		var kind string
+	// drive runs one wallet through an op sequence (random, or the given script) and
+	// records the case. label names the cipher / origin of the wallet.
+	drive := func(cur wallet.Wallet, kind string, temp bool, label string, script []string) error {
 		var err error
-		switch i % 3 {
-		case 0:
-			kind = "KDet"
-			cur, err = deterministic.NewWallet("c18.wlt", "c18", "seed-"+asciiWord(r, 20), append(opts, wallet.OptionGenerateN(uint64(r.Intn(4))))...)
-		case 1:
-			kind = "KBip44"
-			var mn string
-			mn, err = bip39.NewMnemonic(r.Bytes(16))
-			if err != nil {
-				return err
-			}
-			pass := ""
-			if r.Bool() {
-				pass = "pp-" + asciiWord(r, 12)
-			}
-			var bw *bip44wallet.Wallet
-			bw, err = bip44wallet.NewWallet("c18.wlt", "c18", mn, pass, append(opts, wallet.OptionGenerateN(uint64(1+r.Intn(3))))...)
-			if err == nil && r.Chance(35) {
-				if _, err = bw.NewAccount("second"); err == nil && r.Bool() {
-					_, err = bw.GenerateAddresses(wallet.OptionGenerateN(uint64(1+r.Intn(2))), wallet.OptionAccount(1))
-				}
-			}
-			cur = bw
-		default:
-			kind = "KColl"
-			var keys []cipher.SecKey
-			for k := r.Intn(4); k > 0; k-- {
-				_, sk, e := cipher.GenerateDeterministicKeyPair(r.Bytes(32))
-				if e != nil {
-					return e
-				}
-				keys = append(keys, sk)
-			}
-			cur, err = collection.NewWallet("c18.wlt", "c18", append(opts, wallet.OptionCollectionPrivateKeys(keys))...)
-		}
-		if err != nil {
-			return fmt.Errorf("wallet construction failed: %v", err)
-		}
 		shadow := cur.Clone() // never locked: tells the true secrets
 		s0, err := snapshot(cur)
 		if err != nil {
@@ -998,8 +951,67 @@ func runWallets(o *Out, r *Rng, n int, hist Hist, caseJSON map[string][]map[stri
 		}
 		items = append(items, Tuple(w0, List(ops), List(obs)))
 		caseJSON["wallet"] = append(caseJSON["wallet"], map[string]interface{}{
-			"kind": kind, "crypto": string(ct), "temp": temp, "seed": s0.seed, "passphrase": s0.pass, "ops": strings.Join(ops, " ")})
+			"kind": kind, "crypto": label, "temp": temp, "seed": s0.seed, "passphrase": s0.pass, "ops": strings.Join(ops, " ")})
 		o.Count("wallet"+w0+strings.Join(ops, ""), true)
+		return nil
+	}
+	for i := 0; i < n; i++ {
+		ct := ctypes[i%2]
+		if i%7 == 3 {
+			ct = crypto.CryptoTypeSha256Xor
+		}
+		temp := r.Chance(8)
+		opts := []wallet.Option{wallet.OptionCryptoType(ct)}
+		if temp {
+			opts = append(opts, wallet.OptionTemp(true))
+		}
+		var cur wallet.Wallet
+		var kind string
+		var err error
+		switch i % 3 {
+		case 0:
+			kind = "KDet"
+			cur, err = deterministic.NewWallet("c18.wlt", "c18", "seed-"+asciiWord(r, 20), append(opts, wallet.OptionGenerateN(uint64(r.Intn(4))))...)
+		case 1:
+			kind = "KBip44"
+			var mn string
+			mn, err = bip39.NewMnemonic(r.Bytes(16))
+			if err != nil {
+				return err
+			}
+			pass := ""
+			if r.Bool() {
+				pass = "pp-" + asciiWord(r, 12)
+			}
+			var bw *bip44wallet.Wallet
+			bw, err = bip44wallet.NewWallet("c18.wlt", "c18", mn, pass, append(opts, wallet.OptionGenerateN(uint64(1+r.Intn(3))))...)
+			if err == nil && r.Chance(35) {
+				if _, err = bw.NewAccount("second"); err == nil && r.Bool() {
+					_, err = bw.GenerateAddresses(wallet.OptionGenerateN(uint64(1+r.Intn(2))), wallet.OptionAccount(1))
+				}
+			}
+			cur = bw
+		default:
+			kind = "KColl"
+			var keys []cipher.SecKey
+			for k := r.Intn(4); k > 0; k-- {
+				_, sk, e := cipher.GenerateDeterministicKeyPair(r.Bytes(32))
+				if e != nil {
+					return e
+				}
+				keys = append(keys, sk)
+			}
+			cur, err = collection.NewWallet("c18.wlt", "c18", append(opts, wallet.OptionCollectionPrivateKeys(keys))...)
+		}
+		if err != nil {
+			return fmt.Errorf("wallet construction failed: %v", err)
+		}
+		if err := drive(cur, kind, temp, string(ct), nil); err != nil {
+			return err
+		}
+	}
+	if err := loadedWallets(r, hist, drive); err != nil {
+		return err
 	}
 	defChunked(o, "cases_wallet", "wallet ideal_C * list wop * list (error * bool * string * string * string * list string * list (list (string * string)) * bool)", items)
 	return nil
